@@ -394,7 +394,32 @@ func (g *wgen) intVal(bits uint) int64 {
 	case 0:
 		return 0
 	case 1:
-		return []int64{1, -1, 63, 64, -64, -65, 8191, 8192, -8193}[r.Intn(9)]
+		// every power of two of the width, its neighbours, their negatives; powers of ten; the classic small ones
+		switch r.Intn(4) {
+		case 0:
+			return []int64{1, -1, 63, 64, -64, -65, 8191, 8192, -8193}[r.Intn(9)]
+		case 1:
+			v := int64(1)
+			for e := r.Intn(19); e > 0 && v <= lim/10; e-- {
+				v *= 10
+			}
+			if r.Intn(2) == 0 {
+				v = -v
+			}
+			return v
+		default:
+			v := int64(1)<<uint(r.Intn(int(bits)-1)) + int64(r.Intn(3)-1)
+			if r.Intn(2) == 0 {
+				v = -v
+			}
+			if v > lim {
+				v = lim
+			}
+			if v < -lim-1 {
+				v = -lim - 1
+			}
+			return v
+		}
 	case 2:
 		return []int64{lim, -lim - 1, lim - 1, -lim}[r.Intn(4)]
 	case 3:
@@ -487,7 +512,10 @@ func (g *wgen) f32bits() uint32 {
 }
 
 func (g *wgen) f64bits() uint64 {
-	specials := []uint64{0, 1 << 63, 0x3ff0000000000000, 0x7ff0000000000000, 0xfff0000000000000, 0x7ff8000000000000, 1, 0x7fefffffffffffff}
+	specials := []uint64{0, 1 << 63, 0x3ff0000000000000, 0x7ff0000000000000, 0xfff0000000000000, 0x7ff8000000000000, 1, 0x7fefffffffffffff,
+		0xbff0000000000000, 0x7ff0000000000001 /* signalling NaN */, 0xfff8000000000001, 0x000fffffffffffff /* largest subnormal */, 0x0010000000000000,
+		0x47efffffe0000000 /* MaxFloat32 */, 0x47f0000000000000 /* just above it */, 0x36a0000000000000 /* smallest float32 subnormal */, 0x4340000000000000 /* 2^53 */,
+		0x43e0000000000000 /* 2^63 */, 0xc3e0000000000000, 0x41dfffffffc00000 /* MaxInt32 */, 0x3fb999999999999a /* 0.1 */, 0x4059000000000000 /* 100 */}
 	if g.rng.Intn(3) == 0 {
 		return specials[g.rng.Intn(len(specials))]
 	}
